@@ -160,6 +160,9 @@ func cmdCliCheck(args []string) {
 		if r.Intn(12) == 0 {
 			c.Text = c.Text + "\nsend [USD 1] (" // a script with syntax errors
 		}
+		if r.Intn(6) == 0 { // metadata with characters that matter to formatting / escaping
+			c.Text = c.Text + "\n" + pick(r, []string{`set_tx_meta("note", "fee 15% of total %d %s")`, `set_account_meta(@a, "discount", "100%")`, `set_tx_meta("q", "say \\\"hi\\\" C:\\temp")`})
+		}
 		real := cliInput{script: c.Text, vars: c.RawVars, bal: bigBalances(c, r), meta: c.Meta}
 		if r.Intn(5) == 0 {
 			real.vars = copyVars(real.vars)
@@ -296,7 +299,7 @@ func cmdCliCheck(args []string) {
 					}
 				}
 				lw.write(J{"e": "cli", "n": cnt, "mode": "check", "cfg": []any{}, "libst": "", "libjson": "", "exit": exit, "stdout": trunc(so, 600), "msgonstderr": false, "crashed": crashed,
-					"stderr": trunc(se, 300), "script": c.Text, "args": []string{"check", p}, "stdin": "", "nerr": res.GetErrorsCount(), "ndiag": len(res.Diagnostics), "headers": headers, "allprinted": all})
+					"stderr": trunc(se, 300), "script": c.Text, "args": []string{"check", p}, "stdin": "", "nerr": countErrors(res.Diagnostics), "ndiag": len(res.Diagnostics), "headers": headers, "allprinted": all})
 				cnt++
 			}
 		}
@@ -304,6 +307,16 @@ func cmdCliCheck(args []string) {
 	}
 	lw.close()
 	printJSON(J{"cases": cnt, "nontrivial": nontriv, "outcomes": outcomes, "samples": samples})
+}
+
+func countErrors(ds []analysis.Diagnostic) int {
+	n := 0
+	for _, d := range ds {
+		if d.Kind.Severity() == analysis.ErrorSeverity {
+			n++
+		}
+	}
+	return n
 }
 
 func trunc(s string, n int) string {
